@@ -80,19 +80,23 @@ def _scheduler(proc):
     name = getattr(proc.target, "__name__", "")
     if name == "_log_worker":
         return
+    if name == "_worker":
+        vis = _sh.MP.get("visible")
+        if vis is not None and proc.args[0] < len(vis):
+            proc.visible_at = vis[proc.args[0]]
     if name == "_worker" and _sh.MP.get("die") is not None and proc.args[0] == _sh.MP["die"]:
         proc.exitcode = _sh.MP.get("die_code", 1)
         return
     proc.run_now()
 
 
-def _reset(assign, die=None, die_code=1):
+def _reset(assign, die=None, die_code=1, visible=None):
     del CALLBACK_LOG[:]
     del ADDS[:]
     del SEEDS[:]
     del MERGES[:]
     del SHM_EVENTS[:]
-    _sh.MP.update({"assign": assign, "scheduler": _scheduler, "die": die, "die_code": die_code, "events": [], "procs": [], "current": None})
+    _sh.MP.update({"assign": assign, "scheduler": _scheduler, "die": die, "die_code": die_code, "events": [], "procs": [], "current": None, "clock": 0, "visible": visible})
     KILL_ON[0] = -1
 
 
@@ -342,6 +346,63 @@ def check_c19_dead_worker(n_workers: int, dead: int, code: int) -> bool:
     _reset([0, n_workers - 1], die=dead, die_code=code)
     try:
         _run_parallel(2, n_workers, [0, n_workers - 1], True, False, False)
+    except _sh.ShimHang:
+        return False
+    except Exception:
+        return True
+    return False
+
+
+def check_c19_dead_worker_late(n_workers: int, dead: int, code: int, v0: int, v1: int, v2: int) -> bool:
+    """
+    pre: 2 <= n_workers <= 3 and 0 <= dead < n_workers and -15 <= code <= 255 and code != 0 and 0 <= v0 <= 2 and 0 <= v1 <= 2 and 0 <= v2 <= 2
+    post: _ == True
+    timeout: 600
+    """
+    # the exit status of worker i becomes observable only at the parent's v_i-th poll (any interleaving of "the worker
+    # that dies is still running when the others have already finished"): still an exception, never a normal return
+    for n in range(2, 4):
+        if n_workers == n:
+            n_workers = n
+    vis = []
+    for v in (v0, v1, v2):
+        for c in range(3):
+            if v == c:
+                vis.append(c)
+    RET[0], RET[1] = 1, 1
+    RAISE[0] = RAISE[1] = 0
+    _reset([0, n_workers - 1], die=dead, die_code=code, visible=vis)
+    try:
+        _run_parallel(2, n_workers, [0, n_workers - 1], True, False, False)
+    except _sh.ShimHang:
+        return False
+    except Exception:
+        return True
+    return False
+
+
+def check_c19_dead_worker_backlog(n_items: int, n_workers: int, code: int) -> bool:
+    """
+    pre: 1 <= n_items <= 6 and 1 <= n_workers <= 2 and -15 <= code <= 255 and code != 0
+    post: _ == True
+    timeout: 600
+    """
+    # worker 0 dies at once while the filler still has more entries to put than the queue (3 * n_workers) can hold:
+    # parallel_add must still end with an exception, not wait for the filler forever
+    for n in range(1, 7):
+        if n_items == n:
+            n_items = n
+    for n in range(1, 3):
+        if n_workers == n:
+            n_workers = n
+    for j in range(6):
+        RET[j], RAISE[j] = 1, 0
+    assign = [j % n_workers for j in range(n_items)]
+    _reset(assign, die=0, die_code=code)
+    try:
+        _run_parallel(n_items, n_workers, assign, True, False, False)
+    except _sh.ShimHang:
+        return False
     except Exception:
         return True
     return False
@@ -492,6 +553,107 @@ def dying_callback(item, *sketches, code=1):
     for s in sketches:
         s.add(b"k%d" % item)
     return 1
+
+
+def _guarded(fn, seconds):
+    """run fn() in a forked child that leads its own process group; ('ok', result) | ('hang', None): on a timeout the
+    whole group (spawned workers, filler, log worker) is killed"""
+    import os as _os
+    import pickle as _pk
+    import select as _sel
+    import signal as _sig
+    import time as _tm
+    r, w = _os.pipe()
+    pid = _os.fork()
+    if pid == 0:
+        try:
+            _os.setsid()
+            _os.close(r)
+            data = _pk.dumps(fn())
+            with _os.fdopen(w, "wb") as fh:
+                fh.write(data)
+        except BaseException:
+            pass
+        finally:
+            _os._exit(0)
+    _os.close(w)
+    buf = b""
+    end = _tm.time() + seconds
+    with _os.fdopen(r, "rb") as fh:
+        while _tm.time() < end:
+            ready, _, _ = _sel.select([fh], [], [], 1.0)
+            if ready:
+                buf = fh.read()
+                break
+    try:
+        _os.killpg(pid, _sig.SIGKILL)
+    except OSError:
+        pass
+    try:
+        _os.waitpid(pid, 0)
+    except OSError:
+        pass
+    if not buf:
+        return "hang", None
+    try:
+        return "ok", _pk.loads(buf)
+    except Exception:
+        return "hang", None
+
+
+def late_dying_callback(item, *sketches, code=1, delay=6.0):
+    import os as _os
+    import time as _tm
+    if item == 0:
+        _tm.sleep(delay)
+        if code > 0:
+            _os._exit(code)
+        _os.kill(_os.getpid(), -code)
+    for s in sketches:
+        s.add(b"k%d" % item)
+    return 1
+
+
+def _dead_run(n_items, n_workers, cb, **kw):
+    def run():
+        try:
+            res = HELPERS.parallel_add(list(range(n_items)), cb, n_workers=n_workers, cms_args={"cms_type": "linear", "width": 64, "depth": 2}, **kw)
+        except Exception as e:
+            return ("raised", type(e).__name__)
+        return ("returned", int(res.n_added()), int(res.n_records()))
+    return run
+
+
+def real_c19_dead_worker_backlog(n_items, n_workers, code):
+    """the only consumer(s) die while the filler still has more to put than the queue holds: must end with an exception"""
+    if code < 0 and -code not in (9, 15, 6, 11):
+        code = -9
+    # the model's worker dies before it takes anything from the queue; a real callback can only die while holding an
+    # item, so one extra item is submitted: the backlog the filler still has to put is the model's
+    n_items = n_items + 1
+    st, out = _guarded(_dead_run(n_items, n_workers, dying_callback, code=code), 90)
+    if st == "hang":
+        return False, f"parallel_add HANGS: {n_workers} worker(s), {n_items} items, the worker handling item 0 died with status {code}; no return and no exception within 90 s (the queue holds 3 * n_workers entries, the filler is still blocked)"
+    if out[0] == "raised":
+        return True, f"parallel_add raised {out[1]}"
+    return False, f"a worker died with status {code} but parallel_add returned normally (n_added={out[1]}, n_records={out[2]}, {n_items} items)"
+
+
+def real_c19_dead_worker_late(n_workers, dead, code, v0, v1, v2):
+    """the worker that takes item 0 (the first started one, in practice) dies only after the other workers have finished
+    and been seen by the parent's poll: must still end with an exception"""
+    if code < 0 and -code not in (9, 15, 6, 11):
+        code = -9
+    n_workers = max(2, n_workers)
+    msgs = []
+    for attempt in range(2):
+        st, out = _guarded(_dead_run(4, n_workers, late_dying_callback, code=code, delay=6.0 + 3 * attempt), 120)
+        if st == "hang":
+            return False, f"parallel_add HANGS after a worker died late with status {code}"
+        if out[0] == "returned":
+            return False, f"a worker died with status {code} after the other workers had finished, yet parallel_add returned normally (n_added={out[1]}, n_records={out[2]}; 4 items submitted, item 0 lost)"
+        msgs.append(out[1])
+    return True, f"parallel_add raised {msgs} in 2 runs"
 
 
 def real_c19_dead_worker(n_workers, dead, code):
